@@ -51,6 +51,7 @@ def check_case(ctx, case, enum=False, cache=None):
     sroute = case.get("sk_route", "none")
     ctx.ev()
     baselen = SU.olen(n)
+    ctx.case_sample(case)
     try:
         key = (case["curve"], dd, hname)
         if cache is not None and key in cache:
